@@ -26,6 +26,10 @@ type Case struct {
 	Sched   []op
 	Lenient bool   // contains values the CRD would not admit (nil/"" pointer equivalence probes)
 	Profile string // how prev was derived from new
+	// Prepared != 0: the setter comes from the real Prepare*Requests functions (preparedReq with this
+	// seed) and New is what it computes; LongMsg: from longMessageReq.
+	Prepared uint64
+	LongMsg  bool
 }
 
 var (
@@ -271,15 +275,27 @@ func perturbWhole(r *rng.R, k *kindOps, st []Entry) ([]Entry, string) {
 
 // genCase builds a scenario for kind k. trim (may be nil) restricts the own entries to what the real
 // ancestor-full checks admit for the generated previous status; it returns nil to skip the case.
-func genCase(r *rng.R, k *kindOps, steps int, trim func(k *kindOps, prev, own []Entry) []Entry) *Case {
-	c := &Case{Variant: k.variant, Ctlr: ownCtlr, Lenient: r.Chance(1, 25)}
+func genCase(r *rng.R, k *kindOps, steps int, trim func(k *kindOps, prev, own []Entry) []Entry, prep uint64) *Case {
+	c := &Case{Variant: k.variant, Ctlr: ownCtlr, Lenient: r.Chance(1, 25), Prepared: prep}
 	gen := int64(1 + r.Intn(5))
 	now := int64(1700000000 + r.Intn(1000))
 	old := now - int64(1+r.Intn(100000))
+	var given []Entry
+	if prep != 0 {
+		var ok bool
+		if given, ok = preparedNew(k, prep); !ok {
+			return nil
+		}
+		c.Lenient = false
+		trim = nil
+	}
 
 	if k.mode == "whole" {
 		c.Ctlr = ""
 		c.New = genWholeStatus(r, k, gen, now)
+		if prep != 0 {
+			c.New = given
+		}
 		switch p := r.Intn(10); {
 		case p < 4:
 			c.Profile = "unchanged"
@@ -315,6 +331,10 @@ func genCase(r *rng.R, k *kindOps, steps int, trim func(k *kindOps, prev, own []
 		if r.Chance(1, 12) {
 			nOwn = 4 + r.Intn(16)
 		}
+	}
+	if prep != 0 {
+		nOwn = 0
+		c.New = given
 	}
 	for i := 0; i < nOwn; i++ {
 		e := genEntry(r, k, ownCtlr, gen, now, c.Lenient)
@@ -367,8 +387,19 @@ func genCase(r *rng.R, k *kindOps, steps int, trim func(k *kindOps, prev, own []
 
 	// foreign part
 	maxForeign := 20 - len(prevOwn)
-	if k.mode == "foreignFirst" && maxForeign > 15-len(prevOwn) {
-		maxForeign = 15 - len(prevOwn)
+	if k.mode == "foreignFirst" && maxForeign > 16-len(prevOwn) {
+		// a previous status the CRD admits (maxItems 16); the real "ancestor list is full" checks decide
+		// (in trimOwn) how many own entries may be added
+		maxForeign = 16 - len(prevOwn)
+	}
+	if k.name == "SnippetsFilter" && maxForeign > 15-len(prevOwn) {
+		maxForeign = 15 - len(prevOwn) // 16 foreign controllers: known finding, kept in the corpus only
+	}
+	if prep != 0 && k.mode == "foreignFirst" && maxForeign > 11-len(prevOwn) {
+		maxForeign = 11 - len(prevOwn) // the prepared policies were attached without looking at prev: stay far from "full"
+	}
+	if maxForeign < 0 {
+		maxForeign = 0
 	}
 	nForeign := 0
 	switch p := r.Intn(10); {
@@ -377,6 +408,9 @@ func genCase(r *rng.R, k *kindOps, steps int, trim func(k *kindOps, prev, own []
 		nForeign = 1 + r.Intn(4)
 	default:
 		nForeign = r.Intn(maxForeign + 1)
+	}
+	if k.mode == "foreignFirst" && r.Chance(1, 5) {
+		nForeign = maxForeign // the previous status is exactly full
 	}
 	if nForeign > maxForeign {
 		nForeign = maxForeign
@@ -406,8 +440,8 @@ func genCase(r *rng.R, k *kindOps, steps int, trim func(k *kindOps, prev, own []
 	}
 	if trim != nil {
 		c.New = trim(k, c.Store, c.New)
-		if len(c.New) == 0 {
-			return nil
+		if len(c.New) == 0 && k.mode == "foreignFirst" {
+			return nil // no ancestors / list full: the Prepare* functions emit no request
 		}
 	}
 	c.Sched = genSched(r, k, steps, c)
